@@ -15,7 +15,8 @@ META = dict(
             "real arithmetic instead of float32",
     bounds=dict(
         quick="abstract pair values on sizes (1,1),(2,1),(0,2),(2,2),(3,1),(1,1,1),(2,1,0) x back-ends {CBC, GLPK}; positional (symbolic coordinates) on "
-              "(1,1),(2,1); combined (alpha, beta, delta_empty symbolic; concrete coordinates) on (2,1),(2,2)",
+              "(1,1),(2,1); combined (alpha, beta, delta_empty symbolic; concrete coordinates) on (2,1),(2,2); the same over a categorical component that declares "
+              "labels a..d on continua using b and d",
         thorough="+ abstract (3,2),(3,3),(2,1,1),(2,2,1),(1,1,1,1); combined with symbolic coordinates (1,1),(2,1); positional (2,2)"),
     outside="optimum for continua beyond the bound (the quantifier's random 3x9 / 4x5 / 5x3 sampling is not part of this technique); float32 rounding; "
             "optimality of CBC/GLPK themselves",
@@ -36,6 +37,10 @@ def configs(tier):
         out.append(dict(key=f"positional,sizes={s}", sizes=list(s), dissim="positional", labels="none", backend="cbc", cost=50))
     for s in [(2, 1), (2, 2)]:
         out.append(dict(key=f"combined-fixedcoords,sizes={s}", sizes=list(s), dissim="combined", labels="xy", coords="fixed", backend="cbc", cost=80))
+    # a categorical component that declares more categories (a..d) than the continuum uses (b, d)
+    for s in [(2, 1), (2, 2)]:
+        out.append(dict(key=f"combined-declared-superset-fixedcoords,sizes={s}", sizes=list(s), dissim="combined-declared", labels="declared-bd", coords="fixed",
+                        backend="cbc", cost=80))
     # histories on one continuum object: an earlier computation, then an edit through the public API, then the alignment under test
     for s in [(2, 1), (1, 1, 1)]:
         for warm in ("remove", "add-remove", "other-continuum"):
